@@ -229,6 +229,154 @@ def realExponent (fp : List Char) (exp : Option (Char × Option Bool × List Cha
      if signNeg sg then -(Spec.posValue 10 (Spec.digitsOf ep) : Int) else (Spec.posValue 10 (Spec.digitsOf ep) : Int)
    | none => 0) - ((Spec.digitsOf fp).length : Int)
 
+/-- `sp` followed by `t` shows no `._` that starts inside `sp`, and `sp` consists of candidate characters -/
+def cleanView : List Char → List Char → Bool
+  | [], _ => true
+  | c :: cs, t => isCandChar c && !(c == '.' && (cs ++ t).head? == some '_') && cleanView cs t
+
+private theorem viewLen_append (sp t : List Char) (h : cleanView sp t = true) :
+    viewLen? (sp ++ t) = (viewLen? t).map (· + sp.length) := by
+  induction sp with
+  | nil => simp
+  | cons c cs ih =>
+    simp only [cleanView, Bool.and_eq_true, Bool.not_eq_true'] at h
+    obtain ⟨⟨hc, hnd⟩, hcl⟩ := h
+    have ih' := ih hcl
+    have hstep : viewLen? (c :: (cs ++ t)) = (viewLen? (cs ++ t)).map (· + 1) := by
+      conv => lhs; unfold viewLen?
+      split
+      · rename_i heq
+        injection heq with h1 h2
+        subst h1
+        simp [h2] at hnd
+      · rename_i c' cs' hno heq
+        injection heq with h1 h2
+        subst h1; subst h2
+        simp [hc]
+      · rename_i heq; simp at heq
+    simp only [List.cons_append, hstep, ih', Option.map_map, List.length_cons]
+    cases viewLen? t <;> simp [Nat.add_assoc]
+
+private theorem viewLen_pos (t : List Char) (n : Nat) (h : viewLen? t = some n) : 1 ≤ n := by
+  induction t generalizing n with
+  | nil => simp [viewLen?] at h
+  | cons c cs ih =>
+    unfold viewLen? at h
+    split at h
+    · simp at h; omega
+    · rename_i c' cs' _ heq
+      split at h
+      · cases hv : viewLen? cs' with
+        | none => simp [hv] at h
+        | some m => simp [hv] at h; omega
+      · simp at h
+    · rename_i heq; simp at heq
+
+/-- the text lexical sees is the spelling followed by a non-empty-if-possible prefix of the rest -/
+private theorem lexicalView_append (sp t : List Char) (h : cleanView sp t = true) :
+    ∃ t', lexicalView (sp ++ t) = sp ++ t' ∧ t'.head? = t.head? ∧ t'.length ≤ t.length := by
+  unfold lexicalView
+  rw [viewLen_append sp t h]
+  cases hv : viewLen? t with
+  | none => exact ⟨t, by simp, rfl, Nat.le_refl _⟩
+  | some n =>
+    have hn := viewLen_pos t n hv
+    refine ⟨t.take n, ?_, ?_, ?_⟩
+    · simp [List.take_append]
+      exact List.take_of_length_le (by omega : sp.length ≤ n + sp.length)
+    · cases t with
+      | nil => simp
+      | cons d r =>
+        cases n with
+        | zero => omega
+        | succ m => simp
+    · simp [List.length_take]; omega
+
+
+private theorem cleanView_append (a b t : List Char) :
+    cleanView (a ++ b) t = (cleanView a (b ++ t) && cleanView b t) := by
+  induction a with
+  | nil => simp [cleanView]
+  | cons c cs ih => simp [cleanView, ih, List.append_assoc, Bool.and_assoc]
+
+private theorem cleanView_nodot (a t : List Char) (h : ∀ c ∈ a, isCandChar c = true ∧ c ≠ '.') :
+    cleanView a t = true := by
+  induction a with
+  | nil => rfl
+  | cons c cs ih =>
+    have ⟨h1, h2⟩ := h c (by simp)
+    have hb : (c == '.') = false := by simp [h2]
+    simp [cleanView, h1, hb, ih (fun d hd => h d (by simp [hd]))]
+
+private theorem numChar10_cand (c : Char) (h : c = '_' ∨ Spec.digitVal c < 10) :
+    isCandChar c = true ∧ c ≠ '.' := by
+  rcases h with h | h
+  · subst h; exact ⟨rfl, by decide⟩
+  · have hd := isAsciiDigit_of_digitVal c h
+    refine ⟨by simp [isCandChar, hd], ?_⟩
+    intro e; subst e; simp [isAsciiDigit] at hd
+
+private theorem cleanView_real (ip fp : List Char) (dot : Bool) (exp : Option (Char × Option Bool × List Char))
+    (rest : List Char)
+    (hip : optDigitString ip = true) (hfp : optDigitString fp = true) (hdot : dot = false → fp = [])
+    (hexp : ∀ E sg ep, exp = some (E, sg, ep) → (E = 'e' ∨ E = 'E') ∧ Spec.isLooseDigitString 10 ep = true)
+    (hr : delim rest = true) : cleanView (realSpelling ip dot fp exp) rest = true := by
+  have hrest_head : rest.head? ≠ some '_' := by
+    cases rest with
+    | nil => simp
+    | cons d r =>
+      have := (delim_head _ hr d r rfl).1
+      intro e
+      simp at e
+      subst e
+      simp [isEnd, isLeading] at this
+  have hexpc : cleanView (expText exp) rest = true := by
+    apply cleanView_nodot
+    intro c hc
+    cases exp with
+    | none => simp [expText] at hc
+    | some t =>
+      obtain ⟨E, sg, ep⟩ := t
+      have ⟨hE, hep⟩ := hexp E sg ep rfl
+      simp only [expText, List.cons_append, List.mem_cons, List.mem_append] at hc
+      rcases hc with rfl | hc | hc
+      · rcases hE with rfl | rfl <;> exact ⟨rfl, by decide⟩
+      · cases sg with
+        | none => simp [signChars] at hc
+        | some b => cases b <;> simp [signChars] at hc <;> subst hc <;> exact ⟨rfl, by decide⟩
+      · exact numChar10_cand c ((isLoose_all 10 ep hep).1 c hc)
+  have hexp_head : (expText exp ++ rest).head? ≠ some '_' := by
+    cases exp with
+    | none => simpa [expText] using hrest_head
+    | some t =>
+      obtain ⟨E, sg, ep⟩ := t
+      have ⟨hE, _⟩ := hexp E sg ep rfl
+      rcases hE with rfl | rfl <;> simp [expText]
+  unfold realSpelling
+  rw [cleanView_append, cleanView_append]
+  have h1 : cleanView ip ((if dot then '.' :: fp else []) ++ expText exp ++ rest) = true :=
+    cleanView_nodot _ _ (fun c hc => numChar10_cand c (optDigitString_all ip hip c hc))
+  have h2 : cleanView (if dot then '.' :: fp else []) (expText exp ++ rest) = true := by
+    cases dot with
+    | false => simp [cleanView]
+    | true =>
+      have hfpc : cleanView fp (expText exp ++ rest) = true :=
+        cleanView_nodot _ _ (fun c hc => numChar10_cand c (optDigitString_all fp hfp c hc))
+      have hhead : (fp ++ (expText exp ++ rest)).head? ≠ some '_' := by
+        cases fp with
+        | nil => simpa using hexp_head
+        | cons f fs =>
+          have := optDigitString_head _ hfp f fs rfl
+          intro e
+          simp at e
+          subst e
+          simp [isAsciiDigit] at this
+      have hb : ((fp ++ (expText exp ++ rest)).head? == some '_') = false := by simp [hhead]
+      simp only [if_true, cleanView, hb, hfpc]
+      decide
+  simp only [List.append_assoc] at h1 ⊢
+  simp [h1, h2, hexpc]
+
 private theorem parseFloatTok_real (ip fp : List Char) (dot : Bool) (exp : Option (Char × Option Bool × List Char))
     (rest : List Char)
     (hip : optDigitString ip = true) (hfp : optDigitString fp = true) (hdot : dot = false → fp = [])
@@ -245,13 +393,25 @@ private theorem parseFloatTok_real (ip fp : List Char) (dot : Bool) (exp : Optio
     have := optDigitString_head fp hfp '_' r e
     simp [isAsciiDigit] at this
   have hlp : lexAndParseFloat (realSpelling ip dot fp exp ++ rest) =
-      .ok ⟨ip, dot, fp, exp.isSome, expNegOf exp,
-              expRunOf exp⟩ rest := by
-    simp only [lexAndParseFloat, hext]
+      .ok ⟨ip, dot, fp, exp.isSome, expNegOf exp, expRunOf exp⟩ rest := by
+    obtain ⟨t', hv, hhd, _⟩ := lexicalView_append (realSpelling ip dot fp exp) rest
+      (cleanView_real ip fp dot exp rest hip hfp hdot hexp hr)
+    have hr' : delim t' = true := by
+      cases t' with
+      | nil => rfl
+      | cons d r =>
+        cases rest with
+        | nil => simp at hhd
+        | cons d2 r2 =>
+          simp at hhd
+          subst hhd
+          simpa [delim, stops] using hr
+    have hext' := floatExtent_real ip fp dot exp t' hip hfp hdot hm hexp hr'
+    simp only [lexAndParseFloat, hv, hext']
     split
     · rename_i hh
       exact absurd rfl (hfp0 hh)
-    · rfl
+    · simp
   have hbits : (FloatParts.bits ⟨ip, dot, fp, exp.isSome,
         expNegOf exp,
         expRunOf exp⟩) =
